@@ -24,6 +24,9 @@ var knownBadAttrs32 = map[int]string{}
 // pct is an unbiased percentage draw (rapid's integer generators favour small
 // values, so IntRange(0,99) < p is not a p% event).
 func pct(t *rapid.T, label string, p int) bool {
+	if fuzzNoExpensive && expensivePlans[label] {
+		p = 0
+	}
 	v := 0
 	for i := 0; i < 7; i++ {
 		v <<= 1
@@ -33,6 +36,12 @@ func pct(t *rapid.T, label string, p int) bool {
 	}
 	return v*100/128 < p
 }
+
+// Under Go's native fuzzer one execution may take at most 10 s (the engine
+// kills the worker otherwise), so the plans that build 65,000-item batches or
+// very long histories are left to the rapid jobs.
+var fuzzNoExpensive bool
+var expensivePlans = map[string]bool{"big": true, "long": true, "fancross": true, "bigvalue": true}
 
 var thresholds = []float64{0, 0.1, 0.3, 0.9, 1, 5}
 
@@ -167,7 +176,33 @@ func genOptionHistory(t *rapid.T, plan historyPlan) (*StreamCase, *gen.Stream) {
 			c.Batches = append(c.Batches, MetricsBatch(r.Metrics()))
 		}
 	}
+	insertBigPayload(t, c, s, signal, plan.Big || plan.FanCross)
 	return c, s
+}
+
+// insertBigPayload puts, into 2 % of the histories, a batch whose payloads
+// are larger than 1 MiB on the wire (one incompressible string value of
+// 1 - 3 MiB) between two small batches of exactly the same shape, so that the
+// sub-streams that carried the large payload are continued under an unchanged
+// schema ("all stream histories": payload size is a dimension of its own -
+// seeded change C12f keeps no writer behind a buffer of more than 1 MiB).
+func insertBigPayload(t *rapid.T, c *StreamCase, s *gen.Stream, signal string, skip bool) {
+	if skip || !pct(t, "bigpayload", 2) {
+		return
+	}
+	n := rapid.SampledFrom([]int{3 << 20, 1<<20 + 4096, 3 << 19, 2 << 20}).Draw(t, "bigpayloadn")
+	at := rapid.IntRange(0, len(c.Batches)).Draw(t, "bigpayloadat")
+	small := Batch{Signal: signal, Synth: "bigrandom/24"}
+	big := Batch{Signal: signal, Synth: fmt.Sprintf("bigrandom/%d", n)}
+	ins := []Batch{big, small}
+	if rapid.Bool().Draw(t, "bigpayloadlead") {
+		ins = []Batch{small, big, small}
+	}
+	if rapid.Bool().Draw(t, "bigpayloadtwice") {
+		ins = append(ins, big, small)
+	}
+	c.Batches = append(c.Batches[:at:at], append(ins, c.Batches[at:]...)...)
+	s.Stats["payload_over_1MiB"]++
 }
 
 // transitionLabels turns observer events into evidence labels.
@@ -278,6 +313,9 @@ func TestC04(t *testing.T) {
 		labels = append(labels, "signal="+c.Batches[0].Signal)
 		if interleave {
 			labels = append(labels, "interleaved_signals")
+		}
+		if gs.Stats["payload_over_1MiB"] > 0 {
+			labels = append(labels, "payload_over_1MiB_then_same_schema")
 		}
 		late := false
 		for i, b := range res.Batches {
